@@ -185,6 +185,17 @@ void Sched::viol(const char *cls, const char *fmt, ...)
                    static_cast<unsigned long long>(steps_), cur_, b);
 }
 
+void Sched::trace(const char *fmt, ...)
+{
+    if (!tracing_) return;
+    char b[700];
+    va_list ap;
+    va_start(ap, fmt);
+    vsnprintf(b, sizeof(b), fmt, ap);
+    va_end(ap);
+    vsim::hist("TRACE\t%s\t%d\t%llu\t%d\t%s", spec_ ? spec_->id.c_str() : "?", spec_ ? spec_->rep : 0, static_cast<unsigned long long>(steps_), cur_, b);
+}
+
 bool Sched::candidate(int t, bool allowIdle) const
 {
     const Task &k = tasks_[t];
@@ -331,6 +342,7 @@ CaseResult Sched::run(const CaseSpec &spec, Harness &h)
     statesHash_ = 0x57a7e;
     violated_ = hitLimit_ = crashFired_ = quiet_ = false;
     violCount_ = 0;
+    tracing_ = spec.num("trace", 0) != 0;
     stepLimit_ = 50000 + 4000ULL * spec.totalOps();
     rng_.seed(mix64(spec.seed + static_cast<uint64_t>(spec.rep), 0x5c4ed));
 
